@@ -2,6 +2,7 @@ import CedarVerif.Lemmas.SchemaSyntax
 import CedarVerif.Lemmas.SchemaDecl
 import CedarVerif.Lemmas.SchemaDecl2
 import CedarVerif.Lemmas.SchemaCollect
+import CedarVerif.Cedar.SchemaFmtCheck
 /-
 C09 — the JSON and the Cedar schema syntaxes denote the same schema.
 
@@ -623,5 +624,87 @@ theorem collect_sorts_example :
     collectOutcome [.id "entity", .id "b", .comma, .id "a", .other ";", .id "action", .id "z", .comma, .str "A b", .other ";",
         .id "namespace", .id "A", .dcolon, .id "B", .lb, .rb, .id "namespace", .id "B", .dcolon, .id "A", .lb, .rb, .id "entity", .id "B", .other ";"] =
       ⟨none, some ⟨[], ["B", "a", "b"], ["A b", "z"]⟩, [(⟨["B"], "A"⟩, ⟨[], [], []⟩), (⟨["A"], "B"⟩, ⟨[], [], []⟩)]⟩ := by decide +kernel
+
+/-! ## the refusal cases of fmt.rs (`Cedar/SchemaFmtCheck.lean`) -/
+
+/-- some NAMED namespace declares the same name as an entity type and as a common type -/
+def Collides (f : FragmentJ) : Prop :=
+  ∃ x ∈ f.named, ∃ n, n ∈ x.2.entities.map (·.1) ∧ n ∈ x.2.commons.map (·.1)
+
+theorem fragCollisions_eq_nil_iff (l : List (QName × NamespaceJ)) :
+    fragCollisions l = [] ↔ ∀ x ∈ l, ∀ n, n ∈ x.2.entities.map (·.1) → ¬ n ∈ x.2.commons.map (·.1) := by
+  induction l with
+  | nil => simp [fragCollisions]
+  | cons x rest ih =>
+    obtain ⟨q, d⟩ := x
+    simp only [fragCollisions, List.append_eq_nil_iff, ih, List.forall_mem_cons, nsCollisions, List.map_eq_nil_iff,
+      List.filter_eq_nil_iff, List.contains_iff_mem]
+
+theorem fragCollisions_ne_nil_iff (l : List (QName × NamespaceJ)) :
+    fragCollisions l ≠ [] ↔ ∃ x ∈ l, ∃ n, n ∈ x.2.entities.map (·.1) ∧ n ∈ x.2.commons.map (·.1) := by
+  constructor
+  · intro h
+    apply Classical.byContradiction
+    intro hn
+    exact h ((fragCollisions_eq_nil_iff l).2 fun x hx n he hc => hn ⟨x, hx, n, he, hc⟩)
+  · rintro ⟨x, hx, n, he, hc⟩ h
+    exact (fragCollisions_eq_nil_iff l).1 h x hx n he hc
+
+/-- fmt.rs REFUSES EXACTLY on the modelled predicates: a fragment is refused iff a named namespace has an entity-type / common-type
+name collision or some standard entity type's shape is not a record literal; the collision error has priority; otherwise the result
+is the printed fragment. -/
+theorem toCedar_refuses_iff (f : FragmentJ) (nonRec : List QName) :
+    ((∃ e, toCedarChecked f nonRec = .error e) ↔ (Collides f ∨ nonRec ≠ [])) ∧
+    (Collides f → ∃ l, l ≠ [] ∧ toCedarChecked f nonRec = .error (.nameCollisions l)) ∧
+    (¬ Collides f → nonRec ≠ [] → toCedarChecked f nonRec = .error (.unconvertibleShape nonRec)) ∧
+    (¬ Collides f → nonRec = [] → toCedarChecked f nonRec = .ok (printFragmentJ f)) := by
+  have hc := fragCollisions_ne_nil_iff f.named
+  unfold Collides
+  rw [← hc]
+  cases hfc : fragCollisions f.named with
+  | cons c cs => simp [toCedarChecked, hfc]
+  | nil =>
+    cases nonRec with
+    | nil => simp [toCedarChecked, hfc]
+    | cons n ns => simp [toCedarChecked, hfc]
+
+/-- a collision in namespace `NS` is refused (with the qualified name); the same collision in the EMPTY namespace is not -/
+example :
+    toCedarChecked ⟨none, [(⟨[], "NS"⟩, ⟨[("T", .long)], [("T", .standard ⟨[], .nil, none⟩)], []⟩)]⟩ = .error (.nameCollisions [⟨["NS"], "T"⟩]) ∧
+    toCedarChecked ⟨some ⟨[("T", .long)], [("T", .standard ⟨[], .nil, none⟩)], []⟩, []⟩ =
+      .ok [.id "type", .id "T", .other "=", .id "__cedar", .dcolon, .id "Long", .other ";", .id "entity", .id "T", .other ";"] := by
+  refine ⟨by decide +kernel, by decide +kernel⟩
+
+/-- FINDING 1 (C09-entity-ref-rebinds-to-common-type-empty-namespace) IS NOT COVERED BY THE CHECK: the empty namespace declares `T` as
+a common type and as an entity type and `U.x` is the must-be-entity reference `{"type":"Entity","name":"T"}`.  fmt.rs does not refuse
+(the collision check skips the empty namespace), prints the reference as the bare `T`, and in the fragment's own declaration
+environment — exactly the one of `envOK_needed_clash` — the entity reference resolves to the entity type, the printed `T` to the
+common type. -/
+theorem finding_clash_not_refused :
+    let f : FragmentJ := ⟨some ⟨[("T", .long)],
+        [("T", .standard ⟨[], .nil, none⟩), ("U", .standard ⟨[], .cons "x" true (.entity ⟨[], "T"⟩) .nil, none⟩)], []⟩, []⟩
+    toCedarChecked f = .ok [.id "type", .id "T", .other "=", .id "__cedar", .dcolon, .id "Long", .other ";", .id "entity", .id "T", .other ";",
+        .id "entity", .id "U", .other "=", .lb, .id "x", .colon, .id "T", .rb, .other ";"] ∧
+    (envOfFragment f).commons = [⟨[], "T"⟩] ∧ (envOfFragment f).entities = [⟨[], "T"⟩, ⟨[], "U"⟩] ∧
+    resolveRef (envOfFragment f) [] .entity ⟨[], "T"⟩ = some (.entity ⟨[], "T"⟩) ∧
+    resolveRef (envOfFragment f) [] .either ⟨[], "T"⟩ = some (.common ⟨[], "T"⟩) := by
+  refine ⟨by decide +kernel, by decide +kernel, by decide +kernel, by decide +kernel, by decide +kernel⟩
+
+/-- FINDING 2 (C09-common-ref-rebinds-to-entity-type) IS NOT COVERED EITHER: namespace `A` declares an entity type `ipaddr` and `E.x` is
+the must-be-common reference `{"type":"ipaddr"}`.  No common type is declared, so nothing collides; fmt.rs prints the bare `ipaddr`,
+which in `A` resolves to the entity type `A::ipaddr` while the original resolved to the builtin alias. -/
+theorem finding_shadow_not_refused :
+    let f : FragmentJ := ⟨none, [(⟨[], "A"⟩, ⟨[],
+        [("E", .standard ⟨[], .cons "x" true (.commonRef ⟨[], "ipaddr"⟩) .nil, none⟩), ("ipaddr", .standard ⟨[], .nil, none⟩)], []⟩)]⟩
+    toCedarChecked f = .ok [.id "namespace", .id "A", .lb, .id "entity", .id "E", .other "=", .lb, .id "x", .colon, .id "ipaddr", .rb, .other ";",
+        .id "entity", .id "ipaddr", .other ";", .rb] ∧
+    (envOfFragment f).commons = [] ∧ (envOfFragment f).entities = [⟨["A"], "E"⟩, ⟨["A"], "ipaddr"⟩] ∧
+    resolveRef (envOfFragment f) ["A"] .common ⟨[], "ipaddr"⟩ = some (.common ⟨[], "ipaddr"⟩) ∧
+    resolveRef (envOfFragment f) ["A"] .either ⟨[], "ipaddr"⟩ = some (.entity ⟨["A"], "ipaddr"⟩) := by
+  refine ⟨by decide +kernel, by decide +kernel, by decide +kernel, by decide +kernel, by decide +kernel⟩
+
+/-- an entity type whose shape is a common-type reference (not expressible as `EntityTypeJ`) is refused when nothing collides -/
+example : toCedarChecked ⟨none, [(⟨[], "NS"⟩, ⟨[("S", .record .nil)], [], []⟩)]⟩ [⟨["NS"], "E"⟩] = .error (.unconvertibleShape [⟨["NS"], "E"⟩]) := by
+  decide +kernel
 
 end Cedar.C09
